@@ -971,7 +971,8 @@ func run(c *core.Ctx) {
 		exec(c, Case{Elem: pick(r), Ops: g.ops})
 	}
 
-	// 6. call-counting comparator, natural order or arbitrary (balance must not depend on the order being an order): oracle only
+	// 6. call-counting comparator: arbitrary ("weird": balance must not depend on the order being an order; oracle only) or
+	// the natural order ("counted": also sent to the model with the exact comparator-call count of every op)
 	for i := c.N(240, 4000, 2000); i > 0; i-- {
 		g := newGen(c)
 		cs := Case{Elem: "counted"}
@@ -1010,6 +1011,14 @@ func run(c *core.Ctx) {
 
 	// 7. oracle-heavy, model-sampled: grow to n, churn (oracle after every op), maybe shrink; n up to 4097
 	heavyStream(c)
+
+	// check_calls (Avl/Check.v) passes vacuously on a case without recorded calls: a run that sent no exact
+	// comparator-call counts to the model did not tie the cost functions of C02_cost to the code. Never silent.
+	// (search / race tiers emit nothing to the model.)
+	if !c.NoModel && (c.Stats["counted_cases_to_model"] == 0 || c.Stats["comparator_calls_compared_exactly_ops"] == 0) {
+		c.Unobservable("C02 exact comparator-call comparison: no 'counted' case with recorded call counts was sent to the model in this run " +
+			"(check_calls compared nothing)")
+	}
 }
 
 // heavy builds one "grow to n nodes, churn, maybe shrink" history. The churn window is checked by the
